@@ -418,10 +418,10 @@ def line_ranges(ctx, n_cases, have_gen):
 
 
 # ------------------------------------------------------------------------------------------- end to end
-def e2e_pairs(ctx, n_pairs):
+def e2e_pairs(ctx, n_pairs, small_only=False):
     kernels = E.shipped_kernels()
     archs = {"x86": [a for a in models.X86], "aarch64": [a for a in models.A64]}
-    if ctx.tier != "thorough":
+    if ctx.tier != "thorough" or small_only:
         archs = {k: [a for a in v if a in models.SMALL] for k, v in archs.items()}
     pairs = []
     usable = {}
@@ -448,7 +448,7 @@ def lines_family_search(ctx, n_pairs_per_isa, n_random, budget_s):
     """The --lines oracle on observable behaviour: rows of the report == the named lines, numbers == those of the file
     containing only these lines; single numbers, a-b, a:b, duplicates, overlapping, NESTED, unordered, adjacent entries."""
     t0 = time.time()
-    kernels, usable, archs, pairs = e2e_pairs(ctx, None)
+    kernels, usable, archs, pairs = e2e_pairs(ctx, None, small_only=True)     # the selection does not depend on the model: fast-loading ones
     work = os.path.join(ctx.scratch, "e2e")
     os.makedirs(work, exist_ok=True)
     done = {"x86": 0, "aarch64": 0}
@@ -547,7 +547,7 @@ def run(ctx):
     # the end-to-end oracle; when something above broke, spend more of the budget searching
     end_to_end(ctx, budget_s=ctx.n(75, 600) * (1.5 if broken else 1), n_pairs=ctx.n(14, None), n_noise=ctx.n(2, 5))
     if not broken:
-        lines_family_search(ctx, n_pairs_per_isa=ctx.n(1, 8), n_random=ctx.n(4, 20), budget_s=ctx.n(25, 150))
+        lines_family_search(ctx, n_pairs_per_isa=ctx.n(1, 8), n_random=ctx.n(4, 20), budget_s=ctx.n(40, 150))
     ctx.coverage["model_variant"] = variant
 
 
